@@ -282,20 +282,22 @@ func (c *updater) buildBackendAuthHTTP(d *backData) {
 			secretName = authSecret.Source.Namespace + "/" + secretName
 		}
 		listName := strings.Replace(secretName, "/", "_", 1)
+		// The secret is always read, even if its userlist was already built due to
+		// another backend: reading it is what validates cross namespace access.
+		userb, err := c.cache.GetPasswdSecretContent(
+			authSecret.Source.Namespace,
+			authSecret.Value,
+			[]convtypes.TrackingRef{
+				{Context: convtypes.ResourceHABackend, UniqueName: d.backend.ID},
+				{Context: convtypes.ResourceHAUserlist, UniqueName: listName},
+			},
+		)
+		if err != nil {
+			c.logger.Error("error reading basic authentication on %v: %v", authSecret.Source, err)
+			continue
+		}
 		userlist := c.haproxy.Userlists().Find(listName)
 		if userlist == nil {
-			userb, err := c.cache.GetPasswdSecretContent(
-				authSecret.Source.Namespace,
-				authSecret.Value,
-				[]convtypes.TrackingRef{
-					{Context: convtypes.ResourceHABackend, UniqueName: d.backend.ID},
-					{Context: convtypes.ResourceHAUserlist, UniqueName: listName},
-				},
-			)
-			if err != nil {
-				c.logger.Error("error reading basic authentication on %v: %v", authSecret.Source, err)
-				continue
-			}
 			userstr := string(userb)
 			users, errs := extractUserlist(authSecret.Source.Name, secretName, userstr)
 			for _, err := range errs {
